@@ -6,7 +6,7 @@ patchfile = sys.argv[6] if len(sys.argv) > 6 else 'patch.diff'
 dst = '/verif/seeded/%s-%s' % (pid, re.sub(r'^C\d\d-', '', name))
 os.makedirs(dst, exist_ok=True)
 for f in os.listdir(src):
-    if f in ('patch.diff', 'patch.ported.diff', 'demo.cpp', 'notes.txt', 'mock_stream.h', 'frag_stream.h', 'recfs.h', 'iov_model.h'):
+    if f in ('patch.diff', 'patch.ported.diff', 'demo.cpp', 'notes.txt', 'mock_stream.h', 'frag_stream.h', 'recfs.h', 'iov_model.h', 'memfile.h'):
         shutil.copy(os.path.join(src, f), os.path.join(dst, f))
 log = open(clog).read()
 m = re.search(r'=== (?:\S+/)?%s\n(.*?)(?:\n===|\n[A-Z]*DONE|\Z)' % re.escape(name), log, re.S)
